@@ -10,6 +10,14 @@ E3 = "procsim (process-level simulator: strace syscall fault / kill injection)"
 
 # id -> (engine, category, technique, level text, level note, design ref)
 CHECKS = {
+ "C10": (E1, "exploration",
+   "deterministic simulation with tough's real editor as the publisher: seeded editing programs against a reference model, reload through the simulated mirror, and the cross-party flow with hostile incoming metadata",
+   "Seeded programs drive RepositoryEditor over a delegation tree of depth <=3 (roles with 0..40 targets so delegated files are smaller and larger than targets.json, 1..3 keys of mixed algorithms, thresholds 1..3, noise operations), sign with adequate or inadequate key sets, write, publish targets by copy or symlink, then reload with the real client. Oracle: if sign and write succeeded the result loads; targets, delegation structure, versions, expirations equal the model; every snapshot/timestamp meta entry equals (version, length, sha256) of the written file; every target reads back. Cross-party: a role holder edits and signs its role with TargetsEditor; the incoming file is genuine, under-signed, carries a duplicated signature, is signed by wrong keys, or is older; update_delegated_targets must accept exactly the genuine one.",
+   "Mostly a model-based operation-sequence check (small fault space). Reload goes through a directory-backed transport that decodes target paths like a web server.", "DESIGN.md §5 C10"),
+ "C17": (E1, "exploration",
+   "deterministic simulation: foreign-publisher repositories with unknown members and delegated roles passed through tough's real editor (load -> from_repo -> re-sign -> write -> load) against a reference of what must survive",
+   "Seeded originals (custom data on targets, 0..2 delegated roles of depth <=2 with thresholds up to 3 and their own unknown members, 0..2 unknown top-level members in each of targets, snapshot, timestamp) are updated with new versions/expirations and 0..3 added targets. Oracle: target set = old + added with identical lengths, digests and custom data; delegation structure and every delegated role's signed content canon-equal to the original (and still verifying, since the reload succeeds); every unknown top-level member of targets, snapshot and timestamp present and equal.",
+   "Unknown members below the top level of a signed portion are not generated (C12 covers them).", "DESIGN.md §5 C17"),
  "C19": (E1, "exploration",
    "deterministic simulation: clone (cache) of generated repositories served by the simulated mirror, incl. a corrupted source target, followed by a reload from the two directories with the real FilesystemTransport; sandbox tree observed",
    "Seeded repositories (1..3 root versions with optional online-key rotation, odd role and target names, both consistent-snapshot settings) are cloned with all targets or a subset, with/without root chain, optionally with one corrupted source target or an unlisted name. Oracle: nothing outside the two directories changes; the clone loads with identical role versions; every requested target reads back byte-identical; 1..N root files present when asked; a corrupted target is never stored and makes cache() fail.",
